@@ -183,6 +183,9 @@ func (g *docGen) tree(depth int) *node {
 	case c == 8:
 		switch g.r.Intn(4) {
 		case 0:
+			if g.r.Intn(3) == 0 { // integers beyond 2^53 (seeds, byte sizes, nanosecond time stamps): exact as JSON numbers, not as float64
+				return &node{Kind: "int", Int: int64(1)<<53 + 1 + g.r.Int63n(int64(1)<<62)}
+			}
 			return &node{Kind: "int", Int: int64(g.r.Intn(100))}
 		case 1:
 			return &node{Kind: "float", Float: float64(g.r.Intn(100)) + 0.5}
